@@ -184,7 +184,9 @@ def stubCase (t : Idl) : P String := do
   -- 2. the service side: routing, decoding, delivery
   let some c := decodeCall reqFrame | return s!"DIFF C08 request-frame-undecodable{cls} {feats}"
   let implActs : List Act :=
-    if scenario == "error" then [errorAct t bigFuel errName errFields errVals]
+    -- (an error reply to a `more` call is issued with `Call.Continues` left set, as after streamed replies: the error
+    --  frame must not carry it)
+    if scenario == "error" then (if fl.more then [Act.setContinues true] else []) ++ [errorAct t bigFuel errName errFields errVals]
     else (replies.map fun r => [Act.setContinues r.1, replyAct t bigFuel m r.2]).flatten
   let impl : MethodSig → ValList → CallIn → Option Script :=
     if scenario == "notimpl" then fun _ _ _ => none
